@@ -88,10 +88,13 @@ def path(ctx, cfg):
 
     G, edges, tops, ann = build_network(ctx, cfg)
     H = nx.Graph()
-    H.add_nodes_from(G.nodes())
+    order = list(G.nodes())
+    if ctx.fork_bool(ctx.bool("reverse_insertion")):
+        order.reverse()
+    H.add_nodes_from(order)
     for v in G.nodes():
         H.nodes[v][NetworkNames.JOINT_DEGREE] = G.nodes[v]["joint_degree"]
-    for a, b, d in G.edges(data=True):
+    for a, b, d in (list(G.edges(data=True)) if order[0] == 0 else [(b, a, d) for a, b, d in reversed(list(G.edges(data=True)))]):
         H.add_edge(a, b)
         H.edges[a, b][NetworkNames.TOPOLOGY] = d["topology"]
         H.edges[a, b][NetworkNames.MOTIF_IDS] = 0
@@ -99,6 +102,16 @@ def path(ctx, cfg):
     desc = f"edges={list(zip(edges, tops))} annotations={ann}"
 
     def run():
+        # warm-up: a different network goes through another extractor object first (class- or module-level state would leak)
+        W = nx.Graph()
+        for v, a in enumerate([(2, 2), (1, 2), (3, 1)]):
+            W.add_node(v)
+            W.nodes[v][NetworkNames.JOINT_DEGREE] = a
+        for (a, b), t in (((0, 1), names[0]), ((1, 2), names[-1]), ((0, 2), names[0])):
+            W.add_edge(a, b)
+            W.edges[a, b][NetworkNames.TOPOLOGY] = t
+            W.edges[a, b][NetworkNames.MOTIF_IDS] = 0
+        JointExcessJointDegree({ToolsNames.NETWORK: W, ToolsNames.EDGE_NAMES: names}).get_ejks()
         ex = JointExcessJointDegree({ToolsNames.NETWORK: H, ToolsNames.EDGE_NAMES: names})
         results = []
         for call in range(3):
